@@ -5,3 +5,7 @@ import XProofs.Properties.C15
 #print axioms Properties.C15.C15_log_append_only
 #print axioms Properties.C15.C15_take_best_spec
 #print axioms Properties.C15.C15_reload_row_unit_weights
+#print axioms Properties.C15.C15_take_best_on_the_log
+#print axioms Properties.C15.C15_take_best_exact_unit_weights
+#print axioms Properties.C15.C15_log_rows_are_evaluated_points
+#print axioms Properties.C15.C15_take_best_index_in_call
